@@ -164,6 +164,7 @@ pub fn gen_random(seed: u64, idx: u64, tier: Tier) -> Plan {
     let mode = if r.chance(1, 2) { Mode::Cancel } else { Mode::Detached };
     let nconns = *r.pick(&[1usize, 2, 3, 4]);
     let long = tier == Tier::Thorough && r.chance(1, 10);
+    let tls = r.chance(1, 6);
     let mut nonce = 1u64;
     let mut conns = Vec::new();
     let plain = r.chance(1, 3);
@@ -196,6 +197,9 @@ pub fn gen_random(seed: u64, idx: u64, tier: Tier) -> Plan {
             nonce += 1;
         }
         c.steps.push(Step::AwaitResponses { count: nreq, max_ms: 60_000 });
+        if tls {
+            c.kind = ConnKind::Tls;
+        }
         conns.push(c);
     }
     Plan {
@@ -206,13 +210,13 @@ pub fn gen_random(seed: u64, idx: u64, tier: Tier) -> Plan {
             body_limit: 65_536,
             api: if versioned { ApiKind::ErrVersioned } else { ApiKind::Err },
             rt_override: None,
-            tls: false,
+            tls,
         },
         conns,
         shutdown: None,
         accept_errs: vec![],
         final_health: false,
-        note: format!("random idx={idx} versioned={versioned}"),
+        note: format!("random idx={idx} versioned={versioned} tls={tls}"),
     }
 }
 
